@@ -162,7 +162,7 @@ def formula_set(tier):
 def params(tier):
     if tier == 'quick':
         return dict(values=(F.V3, F.V2), maxdepth=6, max_transitions=600, validate='first')
-    return dict(values=(F.V3, F.V3), maxdepth=8, max_transitions=6000, validate='first')
+    return dict(values=(F.V3, F.V3), maxdepth=8, max_transitions=4000, validate='first')
 
 
 def deep_set(tier):
